@@ -1,4 +1,5 @@
 import HpoProofs.BinaryLoad
+import HpoProofs.LoadRefine
 /-!
 # C08 — the decoder honours layouts v1–v3 and never accepts truncated or extended files
 
@@ -101,16 +102,43 @@ theorem C08_decode_terms (fv : Nat) (hfv : fv = 2 ∨ fv = 3) (f : RawFacts) (h 
 section permuted is a valid file, and decodes to exactly the permuted records — none lost,
 duplicated or attributed to another section.
 
-Full statement (NOT proved here): `decodeBytes (encodeRaw fv g)` and `decodeBytes (encodeRaw fv f)`
-are observationally equal ontologies.  Missing: invariance of `Onto.loadFacts` under permutation of
-its record lists (= property C16 for the builder steps); the correspondence check compares the two
-loads on every generated file (`same 0 1`). -/
+Full statement (NOT proved here in this generality): `decodeBytes (encodeRaw fv g)` and
+`decodeBytes (encodeRaw fv f)` are observationally equal ontologies.  Proved for v3 files whose
+records are those of a well-formed ontology: `C08_record_order_reachable` below.  Missing: v1 / v2
+files and arbitrary record sets — invariance of `Onto.loadFacts` under permutation of its record
+lists needs hypotheses on the records (with the same record id twice in a section the later record
+replaces the earlier one while the links of both stay, so the result does depend on the order); the
+correspondence check compares the two loads on every generated file (`same 0 1`). -/
 theorem C08_record_order_partial (fv : Nat) (f g : RawFacts) (h : FileOK fv f) (hp : FactsPerm f g) :
     FileOK fv g ∧ decodeRaw fv (encBody fv g) = .ok (projFacts fv g) ∧
     FactsPerm (projFacts fv f) (projFacts fv g) ∧
     decodeBytes (encodeRaw fv g) = Onto.loadFacts fv (projFacts fv g) := by
   have hg := h.perm hp
   exact ⟨hg, (C08_decode_v fv g hg).2.1, projFacts_perm fv hp, (C08_decode_v fv g hg).2.2⟩
+
+/-- **Record order, v3 files of well-formed ontologies.** Let `f` be the records of a `Reachable`
+ontology `o` (`HpoProofs/LoadRefine.lean`: what the public constructors establish) in any order —
+i.e. any file `as_bytes` can write for `o` — and `g` any permutation of `f` inside the five
+sections.  Both files load, and the two ontologies agree in every observation: release version, every
+term lookup (all fields), every record lookup of the three kinds, categories and modifier. -/
+theorem C08_record_order_reachable (o : Onto) (hr : Reachable o) (f g : RawFacts) (hf : FileOK 3 f)
+    (hpf : FactsPerm (factsOf o) f) (hpg : FactsPerm f g) :
+    ∃ o1 o2, decodeBytes (encodeRaw 3 f) = .ok o1 ∧ decodeBytes (encodeRaw 3 g) = .ok o2 ∧
+      o1.version = o2.version ∧ (∀ j, getT o1.terms j = getT o2.terms j) ∧
+      (∀ k r, getR (o1.recs k) r = getR (o2.recs k) r) ∧
+      o1.categories = o2.categories ∧ o1.modifier = o2.modifier := by
+  have hpg' : FactsPerm (factsOf o) g :=
+    ⟨hpf.version.trans hpg.version, hpf.terms.trans hpg.terms, hpf.parents.trans hpg.parents,
+     hpf.genes.trans hpg.genes, hpf.omim.trans hpg.omim, hpf.orpha.trans hpg.orpha⟩
+  have p1 := projFacts_perm 3 hpf
+  have p2 := projFacts_perm 3 hpg'
+  rw [projFacts_factsOf] at p1 p2
+  obtain ⟨o1, h1, a⟩ := loadFacts_refine o hr _ p1
+  obtain ⟨o2, h2, b⟩ := loadFacts_refine o hr _ p2
+  refine ⟨o1, o2, (C08_decode_v 3 f hf).2.2.trans h1, (C08_decode_v 3 g (hf.perm hpg)).2.2.trans h2,
+    a.version.trans b.version.symm, fun j => (a.terms j).trans (b.terms j).symm,
+    fun k r => (a.recs k r).trans (b.recs k r).symm, a.categories.trans b.categories.symm,
+    a.modifier.trans b.modifier.symm⟩
 
 /-- EVERY proper prefix of a valid file — every truncation offset `0 .. len-1`, no bound on the
 file — is rejected (error or panic), never returned as an ontology.  Framing argument: a cut
